@@ -146,6 +146,50 @@ fn compare(base_src: &str, base_out: &(String, String), variant: &Prog, what: &s
     l.class(what);
 }
 
+// ---- sub-rules nested two levels, the inner one with an empty alternative --------------------------------------
+// `add {a: operand}, {b: operand}` with `operand = {r: reg} {s: shift}` and `shift = {} | lsl | lsr`: every way of writing
+// the blanks of a line gives the result of the plain spelling.
+
+const NESTED_ISA: &str = "#subruledef reg\n{\n    r0 => 0x0\n    r1 => 0x1\n    r2 => 0x2\n    r3 => 0x3\n}\n#subruledef shift\n{\n    {} => 0x0\n    lsl => 0x1\n    lsr => 0x2\n}\n#subruledef operand\n{\n    {r: reg} {s: shift} => r @ s\n}\n#ruledef\n{\n    add {a: operand}, {b: operand} => 0xa @ a @ b\n    ld {a: operand}, {imm: u8} => 0xb @ a @ imm\n    neg {a: operand} => 0xc @ a\n}\n";
+
+fn judge_nested_subrule_line(line: &str, l: &mut Local) {
+    let base_src = format!("{}{}\n", NESTED_ISA, line);
+    l.eval();
+    let base = run::assemble_str(&base_src, &Opts::iters(30));
+    let base_out = outcome(&base);
+    l.nontrivial(&base_src);
+    l.class(if base.success() { "nested-subrule-base-ok" } else { "nested-subrule-base-rejected" });
+    let bs = boundaries(line);
+    let mut variants: Vec<(String, &'static str)> = vec![];
+    for ins in INSERTS {
+        for p in &bs {
+            variants.push((insert_at(line, &[*p], ins), "extra-blank-at-token-boundary"));
+        }
+        if bs.len() > 1 {
+            variants.push((insert_at(line, &bs, ins), "extra-blank-at-every-token-boundary"));
+        }
+    }
+    variants.push((format!("  \t{}", line), "leading-blanks"));
+    variants.push((format!("{} ; c", line), "trailing-comment"));
+    // letters of the pattern in upper case (numbers keep their spelling: `0X7F` is not a literal)
+    let upper: String = refparse::tokenize(line).iter().map(|t| if matches!(t.tk, refparse::Tk::Num(_)) { line[t.start..t.end].to_string() } else { line[t.start..t.end].to_ascii_uppercase() }).collect();
+    variants.push((upper, "upper-case"));
+    for (v, what) in variants {
+        let src = format!("{}{}\n", NESTED_ISA, v);
+        l.eval();
+        let obs = run::assemble_str(&src, &Opts::iters(30));
+        l.class(what);
+        if outcome(&obs) != base_out {
+            l.violation(Violation {
+                property: ID,
+                key: format!("C07:nested-subrules:{}", what),
+                what: format!("{} changes the result: `{}` against `{}`", what, v, line),
+                case: json!({"family": "nested-subrules", "rendering": what, "base": base_src, "variant": src, "expected": {"outcome": base_out.0, "hex": run::bits_to_hex(&base_out.1)}, "observed": obs.summary()}),
+            });
+        }
+    }
+}
+
 fn judge(b: &Base, thorough: bool, l: &mut Local) {
     let r = assemble(&b.prog);
     let ok = match &r {
@@ -367,6 +411,21 @@ pub fn run(ctx: &Ctx) -> Report {
     }
     let nl = lines.len() as u64;
     let np = pool.len() as u64;
+    // two-level sub-rules with an empty alternative (directed; compared with the plain spelling of the same line)
+    {
+        let ops = ["r1", "r2 lsl", "r3 lsr", "r0"];
+        let mut nl2: Vec<String> = vec![];
+        for a in ops {
+            nl2.push(format!("neg {}", a));
+            nl2.push(format!("ld {}, 0x7f", a));
+            for b in ops {
+                nl2.push(format!("add {}, {}", a, b));
+            }
+        }
+        nl2.push("add r1 r2".into());
+        nl2.push("add r1 lsl lsr, r2".into());
+        rep.absorb(par_cases(&nl2, |ln, l| judge_nested_subrule_line(ln, l)));
+    }
     // singles
     rep.absorb(par_run(np * nl, |i, l| {
         let d = decode(i, &[nl, np]);
